@@ -445,11 +445,16 @@ class Run:
         snap = self.net.snapshot()
         fresh.load_snapshot(snap)
         expect = set()
+        from ipv8.messaging.interfaces.udp.endpoint import UDPv4Address, UDPv6Address
         for peer in self.net.verified_peers:
-            if peer.addresses:
-                adr = peer.address
-                if tuple(adr) != ("0.0.0.0", 0):
-                    expect.add(tuple(adr))
+            # the preferred address, by the documented interface order (IPv6, IPv4, plain tuple), from the addresses the
+            # peer currently has - not from whatever the Peer object has cached as its preferred one
+            for cls in (UDPv6Address, UDPv4Address, tuple):
+                adr = peer.addresses.get(cls)
+                if adr is not None:
+                    if tuple(adr) != ("0.0.0.0", 0):
+                        expect.add(tuple(adr))
+                    break
         got = {tuple(a) for a in fresh.get_walkable_addresses()}
         if got != expect:
             self.fail("L8", "snapshot", f"snapshot of members with preferred addresses {sorted(expect)} reloads to "
